@@ -11,7 +11,8 @@ glob enum <pat> <alphabet> <maxlen>   -> the same over all names of length ≤ m
 glob spec <pat> <name>*               -> <wf|desc> <bits|->        the manual's meaning (Glob.spec)
 glob specenum <pat> <alphabet> <maxlen>
 privacy run (R <H|P|U> <pat>)* (Q <c|v|p> <obj>(;<obj>)*)*   -> <answer>* | <cache>
-     obj = <fullName>/<name>/<m|o><n|k>   (module or other; kind None or known); a chain is
+     obj = <fullName>/<name>/<m|o><n|k><e|s>   (module or other; kind None or known; entry of its parent's
+     contents or superseded duplicate); a chain is
      object;parent;grandparent…   answers: PUBLIC PRIVATE HIDDEN True False ReError IndexError
 privacy cli (V <value>)* (Q …)*       -> the same, the rules being the command-line values parsed by the model
                                          of options._convert_privacy; SystemExit | IndexError when a value is refused
@@ -99,9 +100,9 @@ def parseObj (tok : String) : Option Obj :=
   match tok.splitOn "/" with
   | [f, n, fl] =>
     match Proto.decodeStr f, Proto.decodeStr n, fl.toList with
-    | some full, some name, [m, k] =>
-      if (m == 'm' || m == 'o') && (k == 'n' || k == 'k') then
-        some ⟨full, name, m == 'm', k == 'n'⟩
+    | some full, some name, [m, k, e] =>
+      if (m == 'm' || m == 'o') && (k == 'n' || k == 'k') && (e == 'e' || e == 's') then
+        some ⟨full, name, m == 'm', k == 'n', e == 'e'⟩
       else none
     | _, _, _ => none
   | _ => none
